@@ -333,6 +333,31 @@ theorem probe_round_trip_not_defunct (hl : CodecLaws E.codec) (hhdr : HeaderLaw 
 
 end
 
+/-! ### the indirect path -/
+
+section
+variable (E : Env) (τ : Id → Nat) (ids : List Id)
+
+/-- **A ForwardedAck from a member that was asked answers the round.** A reachable calm instance that is not defunct
+    successfully handles a ForwardedAck numbered `n` addressed to it, from a member it asked to probe indirectly in
+    the current round and has not counted yet (`h.src ∈ probe.indirect`), while the probe number is `n`: the round
+    counts as answered — the forward direction of C12's "a ForwardedAck carrying [the current probe number] from one
+    of the members it asked", for the indirect path that absorbs a lost Ping or Ack (C04). -/
+theorem forwarded_ack_from_asked_member_answers_the_round (hd : DistinctAddrs ids) {s s' : State} {data : Bytes}
+    {orc left : Oracle} {eff : List Effect} (hs : CalmInv E τ ids s) (hreach : Reachable E s)
+    (hnu : s.conn ≠ .undead) (hdat : DataOk E (CalmM τ ids) (CalmH τ ids) data)
+    (hstep : Foca.step E s (.data data) orc = .done s' eff .ok left)
+    (h : Header) (rest : Bytes) (hdec : E.codec.decHeader data = some (h, rest)) (hdst : h.dst = s.id)
+    (o : Id) (n : Nat) (hmsg : h.msg = .forwardedAck o n) (hnum : s.probe.number = n)
+    (hasked : h.src ∈ s.probe.indirect) : s'.probe.succeeded = true := by
+  have hrun := step_data_ok E hstep
+  have hc0 : CalmSent E τ ids (fun _ => True) (Ctx.mk s [] orc).s (Ctx.mk s [] orc).eff :=
+    ⟨hs, by intro e he; simp at he⟩
+  exact forwarded_ack_answers_round E τ ids (fun _ => True) hd data _ _ hc0 (MsInv.reachable E hreach) hnu hdat hrun
+    h rest hdec hdst o n hmsg hnum hasked
+
+end
+
 /-! ### non-vacuity: the worked example of `C12H` (instance 1 learns member 2, starts a round for it under number 1,
    the Ack numbered 1 from member 2 arrives) meets every premise of `round_answered_when_ack_handled` -/
 
